@@ -204,6 +204,13 @@ func (ch *channel) parseModes(modes string, modeargs ...string) {
 				logging.Warn("Channel.ParseModes(): not enough arguments to "+
 					"process MODE %s %s%c", ch.name, modestr, m)
 			}
+		case 'b', 'e', 'I':
+			// List modes (bans, ban exceptions, invite exceptions) always
+			// come with a mask. We don't track the lists, but the mask must
+			// be skipped so that later modes get the right arguments.
+			if len(modeargs) != 0 {
+				modeargs = modeargs[1:]
+			}
 		case 'q', 'a', 'o', 'h', 'v':
 			if len(modeargs) != 0 {
 				if nk, ok := ch.lookup[modeargs[0]]; ok {
